@@ -454,6 +454,7 @@ func rtLoopBound(ex *Exec, fn *ssa.Function, args []Value) (Value, *Panic) {
 
 func rtAllocLimit(ex *Exec, fn *ssa.Function, args []Value) (Value, *Panic) {
 	ex.allocLimit = int(args[0].(*Term).Int())
+	ex.allocTotal = 0
 	return nil, nil
 }
 
